@@ -130,9 +130,10 @@ CHECKS = {
             "C01_stable_under_other_writes, C01_capacity_reads_empty, C01_part_is_written (each field / item of a written object is a "
             "written object at its offset, so every statement descends to any depth), C01_read_leaf_at_path (the bytes at the address "
             "of the scalar element at the end of any nested path are that element's value: what a leaf accessor and a C getter load). "
-            "No bound on nesting depth, dimensions or sizes.",
-            "Partial: references, union references and construction from existing xobjects are covered by the executable model's "
-            "tie and the oracle only; input-form normalisation (nested lists / ndarray / dict -> canonical value; index order -> "
+            "No bound on nesting depth, dimensions or sizes. C01_new_node_reads (node model, component rg: a freshly constructed node "
+            "holding Ref / UnionRef fields reads its scalars as given and every reference as null, wherever the allocator places it).",
+            "Partial: references held in dynamic structs / arrays and construction from existing xobjects of the general grammar are "
+            "covered by the executable model's tie and the oracle only (for nodes: C08 / C09 theorems); input-form normalisation (nested lists / ndarray / dict -> canonical value; index order -> "
             "memory order) is executable glue tied on every case.",
             "7/C01"),
     "C03": (LAY + "oracle: whole-buffer diff outside the traced reservations",
